@@ -57,6 +57,10 @@ type Doc struct {
 	Arr    [3]int
 	W      Wrapper
 	NS     NamedStr
+	PStr   []*string // pointer elements, some of them nil
+	PPInt  []**int   // two levels, nil at either
+	Digest [8]byte   // fixed-size byte array
+	Code   NamedInt  // named numeric type
 	secret string
 	Skip   string `bexpr:"-" json:"-"`
 }
@@ -65,10 +69,10 @@ var words = []string{"", "a", "ab", "abc", "foo", "bar", "baz", "foobar", "web-1
 var keyWords = []string{"a", "b", "c", "foo", "bar", "x", "name", "tags", "meta", "n", "k1", "k2", "k3", "co:lon", "with space", "ünï", "0", "Name", "NAME", "Foo", "FOO", "Env", "ENV", "env", "9", "10", "1a", "2", "4a", "sl/ash", "ti~lde", "dot.ted", "", "a b", "-"}
 
 // DatumGens lists the constructors for Evaluate data.
-var DatumGens = []string{"doc", "docptr", "json", "jsonnum", "tmap:int", "tmap:slice", "tmap:map", "tmap:ptr", "tmap:any", "tmap:inner", "tmap:ikey", "tmap:nkey", "longlist", "odd", "odd", "bytesdoc", "bytesdoc"}
+var DatumGens = []string{"doc", "docptr", "json", "jsonnum", "tmap:int", "tmap:slice", "tmap:map", "tmap:ptr", "tmap:any", "tmap:inner", "tmap:ikey", "tmap:nkey", "longlist", "odd", "odd", "bytesdoc", "bytesdoc", "names"}
 
 // CollGens lists the constructors for Filter.Execute containers.
-var CollGens = []string{"coll:slice", "coll:ptrslice", "coll:array", "coll:arrayptr", "coll:arrayany", "coll:arraymap", "coll:map", "coll:intmap", "coll:named", "coll:namedmap", "coll:jsonlist", "coll:anys", "coll:nilslice", "coll:empty", "coll:anymap", "coll:ptrmap", "coll:scalar", "coll:huge"}
+var CollGens = []string{"coll:slice", "coll:ptrslice", "coll:array", "coll:arrayptr", "coll:arrayany", "coll:arraymap", "coll:map", "coll:intmap", "coll:named", "coll:namedmap", "coll:jsonlist", "coll:anys", "coll:nilslice", "coll:empty", "coll:anymap", "coll:ptrmap", "coll:scalar", "coll:huge", "coll:names"}
 
 func Build(d DatumSpec) interface{} {
 	r := plan.New(plan.Mix(d.Seed, 0xda7a))
@@ -112,6 +116,22 @@ func Build(d DatumSpec) interface{} {
 			l[r.Intn(n)] = []int{1}
 		}
 		v = l
+	case d.Gen == "coll:names" || d.Gen == "names":
+		// more distinct short strings than any bounded memo holds (1024 is the
+		// usual size): records whose names all differ, with a handful of prefixes
+		n := r.Range(1100, 2600)
+		pre := []string{"web", "db", "cache", "api", "job"}
+		l := make([]Inner, n)
+		names := make([]string, n)
+		for i := range l {
+			names[i] = fmt.Sprintf("%s-%04d", pre[(i*7+i/3)%len(pre)], i)
+			l[i] = Inner{X: i, Y: names[i], B: i%3 == 0}
+		}
+		if d.Gen == "names" {
+			v = map[string]interface{}{"items": names, "n": n}
+		} else {
+			v = l
+		}
 	case d.Gen == "coll:long":
 		n := r.Range(9, 40)
 		l := make([]Inner, n)
@@ -224,6 +244,29 @@ func genDoc(r *plan.Rand) *Doc {
 		p := genInner(r, 0)
 		d.Ptr = &p
 	}
+	for i, k := 0, r.Intn(4); i < k; i++ {
+		if r.Chance(0.35) {
+			d.PStr = append(d.PStr, nil)
+		} else {
+			w := r.Pick(words)
+			d.PStr = append(d.PStr, &w)
+		}
+	}
+	for i, k := 0, r.Intn(3); i < k; i++ {
+		switch r.Intn(3) {
+		case 0:
+			d.PPInt = append(d.PPInt, nil)
+		case 1:
+			var inner *int
+			d.PPInt = append(d.PPInt, &inner)
+		default:
+			x := r.Range(0, 5)
+			px := &x
+			d.PPInt = append(d.PPInt, &px)
+		}
+	}
+	copy(d.Digest[:], r.Pick([]string{"deadbeef", "cafe0001", "00000000", "web-1\x00\x00\x00", "ab"}))
+	d.Code = NamedInt(r.Range(0, 600))
 	n := listLen(r, 4)
 	d.List = make([]Inner, n, n+1)
 	for i := range d.List {
